@@ -479,3 +479,28 @@ Theorem executed_product_space_model_is_restriction :
   omap o2r (fun l : list nat => l) (pso_call (fun _ _ => None) ents dom ran xs out s)
   = pso_call (fun _ _ => None) (map (entmap o2r) ents) dom ran xs out (smap o2r s).
 Proof. intros ents dom ran xs out s. exact (pso_call_transfer o2r o2r_hom (fun _ _ => None) ents dom ran xs out s). Qed.
+
+(* ------------------------------------------------------------------ *)
+(* TIE TO THE SOURCE OF THE PROTOCOL ITSELF: Gen/C03Bodies.v also contains, regenerated on every
+   run, the statement lists of Operator.__call__ (with and without out), of
+   _default_call_out_of_place, of _default_call_in_place and the slot table of
+   Operator.__new__.  The hand-written [public_call], [default_oop], [default_ip], [slots] that all
+   theorems above are about are EQUAL to the interpreters of those lists, so reordering a check
+   in __call__ or changing a slot in __new__ breaks these proofs (not only the correspondence). *)
+Theorem protocol_model_is_generated_from_source :
+  forall (V : Type) (HV : Num V) (junk : nat -> nat -> V) (dom : space) (ran : rsp)
+         (ip : @pyval V -> @pyval V -> @M V (@pyval V)) (oop : @pyval V -> @M V (@pyval V))
+         (k : kind) (x y : @pyval V) (out : option (@pyval V)) (s : @store V),
+  public_call_gen junk dom ran ip oop x out s = public_call junk dom ran ip oop x out s /\
+  default_oop_gen junk ran ip x s = default_oop junk ran ip x s /\
+  default_ip_gen junk ran oop x y s = default_ip junk ran oop x y s /\
+  fst (slots_gen junk k ran oop ip) x y s = fst (slots junk k ran oop ip) x y s /\
+  snd (slots_gen junk k ran oop ip) x s = snd (slots junk k ran oop ip) x s.
+Proof.
+  intros V HV junk dom ran ip oop k x y out s. split; [|split; [|split]].
+  - exact (@public_call_is_generated V HV junk dom ran ip oop x out s).
+  - exact (@default_oop_is_generated V HV junk ran ip x s).
+  - exact (@default_ip_is_generated V HV junk ran oop x y s).
+  - exact (@slots_is_generated V HV junk k ran oop ip x y s).
+Qed.
+Print Assumptions protocol_model_is_generated_from_source.
